@@ -232,6 +232,30 @@ pub fn long_word_texts() -> Vec<String> {
     out
 }
 
+/// Shapes an optimiser would simplify, nested in one another: every pair of the 16 redundancy
+/// shapes over a few small subtrees (dead operands inside dead operands, and so on).
+pub fn redundancy_texts() -> Vec<String> {
+    use crate::tree::*;
+    let subs = [
+        E::or(E::T(Tst::Name("a".into())), E::A(Act::Print)),
+        E::not(E::not(E::A(Act::Print0))),
+        E::and(E::T(Tst::Uid(Cmp::Eq, 1)), E::A(Act::FPrint("out".into()))),
+        E::T(Tst::True),
+    ];
+    let mut out = vec![];
+    for s in &subs {
+        for a in 0..16u8 {
+            for b in 0..16u8 {
+                let t = crate::gen::redundant(crate::gen::redundant(s.clone(), a), b);
+                if let Some(text) = crate::render::canonical(&t) {
+                    out.push(text);
+                }
+            }
+        }
+    }
+    out
+}
+
 /// The whole corpus, split in `nshards` deterministic slices; returns slice `shard`.
 pub fn texts(seed: u64, tier: Tier, shard: usize, nshards: usize) -> Vec<String> {
     let mut all: Vec<String> = vec![];
@@ -268,6 +292,11 @@ pub fn texts(seed: u64, tier: Tier, shard: usize, nshards: usize) -> Vec<String>
         }
     }
     for (i, t) in many_resources_texts().into_iter().enumerate() {
+        if i % nshards == shard {
+            all.push(t);
+        }
+    }
+    for (i, t) in redundancy_texts().into_iter().enumerate() {
         if i % nshards == shard {
             all.push(t);
         }
